@@ -167,8 +167,15 @@ def r3_commands(ctx, F):
         from c01 import iter_source
         src = iter_source(b, nx)
         ok_iter = src.kind == 'arg' and b.locals[src.key]['head'].endswith('actor::Out')
+    # (only adaptors applied to the COMMANDS matter: `timers.extend(repeat_with(Timers::new).take(n))` is not one)
+    def on_commands(c):
+        v = noref(b.trace(b.val(c.args[0]), ('IntoIterator::into_iter', 'Deref::deref', 'DerefMut::deref_mut',
+                                             'Iterator::by_ref', 'Vec::iter', 'slice::iter'))) if c.args else None
+        return v is not None and v.kind == 'arg' and (b.locals[v.key]['head'].endswith('actor::Out') or
+                                                       v.fields()[:1] == ('.0',) and
+                                                       b.locals[v.key]['head'].endswith('actor::Out'))
     rev = [c for c in b.calls_to('Iterator::rev', 'DoubleEndedIterator::next_back', 'Iterator::last', 'slice::reverse',
-                                 'Vec::reverse', 'Iterator::skip', 'Iterator::take', 'Iterator::step_by')]
+                                 'Vec::reverse', 'Iterator::skip', 'Iterator::take', 'Iterator::step_by') if on_commands(c)]
     into = [x for x in F.bodies.values() if x.path.startswith('<actor::Out<A> as std::iter::IntoIterator>::into_iter')]
     rev2 = [c for x in into for c in x.calls_to('Iterator::rev', 'slice::reverse', 'Vec::reverse')]
     ctx.check(ok_iter and not rev and not rev2 and bool(into), rule, 'commands-in-emission-order', b,
@@ -208,8 +215,8 @@ def r3_commands(ctx, F):
         # history is stored back before the next command is looked at
         hv = [noref(b.val(a)) for a in rec[0].args]
         reads = any(v.kind == 'arg' and v.fields()[-1:] == ('.history',) for v in hv)
-        stores = [i for (i, si, st) in b.assigns(lambda st: any(isinstance(e, dict) and e.get('name') == 'history'
-                                                                for e in st['lhs']['p']))]
+        from common import stores_to_field
+        stores = [i for (i, st_) in stores_to_field(b, 'history')]
         some = b.branch(rec[0], 'Some')
         r = b.reach([e[1] for e in some], cut_blocks=stores) if some else set()
         late = bool(some) and ((nx is not None and nx.bb in r) or any(x in r for x in b.returns))
